@@ -220,6 +220,9 @@ def cases(seed, tier):
         d.update(family="linsys", conf=names[i % len(names)], nt=rng.choice([3, 4, 6]), order=1, cg=i // len(names) % 2, rg_y0=True,
                  tuple=rng.random() < 0.4, cot=rng.choice(["dense", "last", "two"]))
         out.append(d)
+    # ---- extra scenarios (right-hand side with control flow on t; one bck_options dict shared by several calls): vf/c08_extra.py
+    from vf import c08_extra
+    out.extend(c08_extra.cases(seed, tier))
     return out
 
 
@@ -706,6 +709,9 @@ def _check_unused(obs, desc, P, out, tag):
 
 
 def run_case(desc):
+    if desc.get("group") == "extra":
+        from vf import c08_extra
+        return c08_extra.run_case(desc)
     obs = Obs(desc)
     P, rng, tgen = build_problem(desc)
     group = desc["group"]
